@@ -448,7 +448,10 @@ func parseTestSuites(testFileData map[string][]byte) (map[string]*conformancev1.
 		if err := opts.Unmarshal(data, suite); err != nil {
 			return nil, internal.EnsureFileName(err, testFilePath)
 		}
-		for _, testCase := range suite.TestCases {
+		for i, testCase := range suite.TestCases {
+			if testCase.Request == nil {
+				return nil, fmt.Errorf("%s: test case #%d has no request", testFilePath, i+1)
+			}
 			if testCase.Request.RawRequest != nil && suite.Mode != conformancev1.TestSuite_TEST_MODE_SERVER {
 				return nil, fmt.Errorf("%s: test case %q has raw request, but that is only allowed when mode is TEST_MODE_SERVER",
 					testFilePath, testCase.Request.TestName)
